@@ -117,6 +117,7 @@ func runC01(c *Ctx, r *Report) {
 	r.Rule("C01.R8", "dereference before discrimination: a value that may be an object.Reference (interprocedural may-hold analysis from the places a Reference is boxed, plus elements of argument lists: by the extension registry for callbacks - positions declared ANY or beyond the declared types are not dereferenced by applyExtension - and by the list analysis elsewhere; object.Value, Reference.ObjValue, a Type()!=REFERENCE test or a failed assertion to Reference clean it, edge by edge through phis) is never compared by tag with a storable value type, asserted to the Go type of one, or compared with the TRUE/FALSE/NULL singletons")
 	r.Rule("C01.R9", "loops honour break and continue: where State.evalInternal is called in a cycle of the evaluator on a node that does not change in that cycle (the body of a loop construct) and the result is tested for RETURN, its ReturnValue.ControlType is compared with BREAK and with CONTINUE; the BREAK arm cannot reach the body evaluation again, the CONTINUE arm can")
 	r.Rule("C01.R10", "binding errors are not dropped: in package eval the Object returned by Environment.Set / CreateOrSet (an Error for a bound constant or a built-in name) is used, never discarded")
+	r.Rule("C01.R11", "what a loop keeps is a value: in package eval, in every function that calls evalInternal inside a cycle, no Object-typed loop-carried value (header phi fed by a back edge) may be an object.Reference")
 	r.Rule("C01.R4", "errors stop evaluation: no result of Eval/evalInternal is stored into an array element, a map pair or a binding unless a Type()==ERROR test has excluded the error on that path (interprocedural)")
 
 	tr := c.TokRel()
@@ -509,6 +510,8 @@ func runC01(c *Ctx, r *Report) {
 	// shared C05.R12: an INTEGER test recognises registers too (operators dispatch on it)
 	r.Rule("C05.R12", "(shared) an ==/!= test of x.Type() against INTEGER on a value that may be a register is accompanied by a REGISTER test on the same value: otherwise an operator takes another arm for an integer held in a register")
 	c.checkRegisterIsInteger(r, "C05.R12")
+
+	c.checkLoopCarriedValues(r, "C01.R11")
 
 	// ---- R9 ---- every loop form implements break and continue
 	c.checkLoopControl(r, "C01.R9")
